@@ -4,7 +4,7 @@ import os
 import re
 import time
 
-VERIF = "/verif"
+VERIF = os.environ.get("VERIF_ROOT", "/verif")
 KNOWN = os.path.join(VERIF, "known_findings.json")
 
 
